@@ -374,6 +374,10 @@ def get_app(stack, flavour, sym):
         if flavour == 'stock':
             hs[falcon.MEDIA_JSON] = JSONHandler(loads=counting_loads)
             hs[vt] = JSONHandler(loads=counting_loads)
+        elif flavour == 'default':
+            # the handlers a new app comes with, untouched (stock json.loads / json.dumps: whatever fast path the
+            # handler reserves for them is taken); the parse counter stays 0, values / errors / status are judged
+            hs[vt] = JSONHandler()
         elif flavour == 'bytes':
             # a dumps() that returns bytes (orjson style; documented as supported), exact handler type
             hs[falcon.MEDIA_JSON] = JSONHandler(dumps=bytes_dumps, loads=counting_loads)
@@ -681,7 +685,10 @@ def case_L(case, rep):
 
 BODY_EXTRA = [(b'', 'empty'), (b' ', 'whitespace'), (b'\n', 'whitespace'), (b' \r\n\t', 'whitespace'),
               (b'\xef\xbb\xbf1', 'bom'), (b'\xff', 'invalid-utf8'), (b'"\xc3"', 'invalid-utf8'),
-              (b'\xed\xa0\xbd', 'invalid-utf8'), (b'{', 'truncated'), (b'[1,]', 'trailing-comma'), (b"'a'", 'single-quotes')]
+              (b'\xed\xa0\xbd', 'invalid-utf8'), (b'"\xed\xa0\x80"', 'invalid-utf8'), (b'\xef\xbb\xbf{"a": 1}', 'bom'),
+              ('{"a": "\xe9"}'.encode('utf-16'), 'utf-16'), ('{"a": "\xe9"}'.encode('utf-16-le'), 'utf-16'),
+              ('{"a": "\xe9"}'.encode('utf-16-be'), 'utf-16'), ('[1]'.encode('utf-32'), 'utf-32'),
+              ('[1]'.encode('utf-32-le'), 'utf-32'), ('[1]'.encode('utf-32-be'), 'utf-32'), (b'{', 'truncated'), (b'[1,]', 'trailing-comma'), (b"'a'", 'single-quotes')]
 
 
 def case_K(case, rep):
@@ -703,7 +710,7 @@ def case_K(case, rep):
     for b, bk in kinds:
         rep.state()
         for stack in ('wsgi', 'asgi'):
-            for flavour in ('stock', 'wrapped'):
+            for flavour in ('stock', 'wrapped', 'default'):
                 for variant in variants_for(stack, len(b), 'quick', rich=False):
                     check_history(rep, 'K', stack, flavour, sym, ct, b, ('get',), variant, bk)
         if body_outcome(ct, b)[0] != 'val':
@@ -716,7 +723,9 @@ def case_H(case, rep):
         for hist in itertools.product(OPS, repeat=n):
             rep.state()
             for stack in ('wsgi', 'asgi'):
-                for flavour in ('stock', 'wrapped'):
+                for flavour in ('stock', 'wrapped', 'default'):
+                    if flavour == 'default' and body in (CRASH_BODY, REFUSED_BODY):
+                        continue        # these two bodies mean something to the instrumented loads() only
                     for variant in variants_for(stack, len(body), 'quick', rich=False):
                         ok = check_history(rep, 'H', stack, flavour, sym, ct, body, hist, variant, bk)
                         if ok and n > 1:
